@@ -210,3 +210,41 @@ Theorem C20_validated_link_roundtrip_refuted_before_fix :
     forall itoa b64 mn hn, simple_link (link_as_parsed itoa b64 mn hn f) = Err 14.
 Proof. exact link_roundtrip_v0_ambiguous_binding_fails. Qed.
 Print Assumptions C20_validated_link_roundtrip_refuted_before_fix.
+
+(* ---------------------------------------------------------------- operation histories (one process, one file) *)
+
+(* a rejected operation (malformed text, invalid patch, patch whose merge fails the full validation, no file) at
+   any point of any history leaves the stored configuration AND every later observation unchanged *)
+Theorem C20_rejected_apply_is_noop : forall (H : bytes -> bytes) h1 o h2 s,
+  is_rejected (snd (step H (fst (run_outs H s h1)) o)) = true ->
+  fst (run_outs H s (h1 ++ o :: h2)) = fst (run_outs H s (h1 ++ h2)) /\
+  exists c, snd (run_outs H s (h1 ++ o :: h2)) =
+            snd (run_outs H s h1) ++ Rejected c :: snd (run_outs H (fst (run_outs H s h1)) h2) /\
+            snd (run_outs H s (h1 ++ h2)) =
+            snd (run_outs H s h1) ++ snd (run_outs H (fst (run_outs H s h1)) h2).
+Proof. exact rejected_apply_is_noop. Qed.
+Print Assumptions C20_rejected_apply_is_noop.
+
+(* Load / GetJSON return exactly what is stored and store nothing; after a write that reported w they return w *)
+Theorem C20_load_returns_stored : forall (H : bytes -> bytes) s o,
+  let s' := fst (step H s o) in
+  step H s' OpLoad = (s', match s' with Some c => Accepted (Some c) | None => Rejected 101 end) /\
+  step H s' OpGetJSON = step H s' OpLoad /\
+  (forall w, snd (step H s o) = Accepted w -> s' = w) /\
+  (match o with OpLoad | OpGetJSON => s' = s | _ => True end).
+Proof. exact load_returns_stored. Qed.
+Print Assumptions C20_load_returns_stored.
+
+(* over every history: no plaintext password in the file or in anything returned *)
+Theorem C20_history_no_plaintext : forall (H : bytes -> bytes) h s, store_clean s ->
+  store_clean (fst (run_outs H s h)) /\ Forall out_clean (snd (run_outs H s h)).
+Proof. exact history_no_plaintext. Qed.
+Print Assumptions C20_history_no_plaintext.
+
+(* a validated user name is 1..MaxUserNameLen BYTES long, which is the precondition of the user-hint computation
+   (cipher.addUserHintToNonce / CheckUserFromHint panic otherwise); the whole name is hashed *)
+Theorem C20_validated_name_fits_hint : forall prefix, blen prefix = NoncePrefixLenForUserHint ->
+  (forall u, validate_user u = 0%N -> hint_input (uname u) prefix = Ok (uname u ++ prefix)) /\
+  (forall p, validate_profile p = 0%N -> hint_input (uname (puser p)) prefix = Ok (uname (puser p) ++ prefix)).
+Proof. exact validated_name_fits_hint. Qed.
+Print Assumptions C20_validated_name_fits_hint.
